@@ -18,8 +18,11 @@ from .c20 import FLOWS, build_scenario
 ID = "C15"
 LEVEL = "exploration"
 RULE = (
-    "claimed for what whole simulated runs can observe (the direct-conversion grid over sample classes and dtype spellings "
-    "is a pure function table and is NOT explored here). case kinds: (precision) a run under namespace x requested dtype "
+    "four case kinds. (convert) operation sequences from a seeded stateful machine over a pool of sample sets (BaseSamples / "
+    "Samples / SMCSamples x numpy / torch / jax x float32 / float64 x every optional-field subset x attached evidence), each shadowed "
+    "by a plain-array model: to_namespace(T) for every ordered pair and to_numpy() compose with select / concatenate / pickle / "
+    "dict round trips and with each other (A -> B -> C); after every conversion the set must equal the model -- same class, values, "
+    "optional fields, parameters, temperature, attached evidence, the target namespace and the SAME float width. (precision) a run under namespace x requested dtype "
     "(None / 'float32' / 'float64' as string or native object) x sampler: every array seen at the model seam, every "
     "population recorded in the history, stored in a checkpoint payload, restored after a crash/resume and returned must "
     "have the requested float width (namespace default when none was requested) and live in the sample namespace; "
@@ -28,7 +31,7 @@ RULE = (
     "outputs fed to importance and SMC sampling in every sample namespace: the run must not raise. evaluations = processes; "
     "distinct_nontrivial counts distinct (kind, sampler, flow back-end, namespace, dtype spelling, target namespace) tuples."
 )
-ASSUMPTIONS = ["only what runs observe; conversion helper grid not explored (stated partial claim)", "stub kernels; CPU only"]
+ASSUMPTIONS = ["the table of dtype SPELLINGS accepted by the dtype helpers is exercised only through the spellings runs are configured with (None, 'float32', 'float64', native objects)", "stub kernels; CPU only"]
 COMPONENTS = {
     "real": runs.COMPONENTS["real"] + ["Samples.to_namespace / from_samples / to_standard_samples", "ZukoFlow", "FlowJax", "aspire.utils.asarray / resolve_dtype / convert_dtype"],
     "stub": runs.COMPONENTS["stub"],
